@@ -5,15 +5,62 @@ import os
 
 HERE = os.path.dirname(os.path.dirname(os.path.abspath(__file__)))
 
+DIFF_NOTE = ("Trusted base: gcc -O0 -fwrapv with custom UBSan handlers as C reference (self-tested per run), the IL semantics of DESIGN appendix B, "
+             "the architectural / plugin-macro model of DESIGN section 3; states are sampled (boundary-biased + directed), not enumerated.")
 CHECKS = {
+    "C01": dict(level="exploration", ref="DESIGN.md section 4 C01",
+        text="Differential execution of the real compiler's output: every accepted part of the bundled corpus (thorough: all 2181 definitions; quick: stratified sample of 200) "
+             "and the 13 sub-routines are compiled in pristine forked children, the emitted IL is executed by an IL evaluator and compared with the behaviour text compiled as C on "
+             "64/256 boundary-biased states per part. Sampling of states is what runtime observation can give for 'all initial states'.",
+        note=DIFF_NOTE, technique="differential execution: IL interpreter vs C text compiled with gcc + UBSan handlers"),
+    "C02": dict(level="exploration", ref="DESIGN.md section 4 C02",
+        text="All 1112 operator x type x type cells at depth 1 (exhaustive over cells), depth-2 combinations and random trees; values boundary+random, exhaustive 8-bit operands in thorough; "
+             "every program compiled by the real compiler and executed against C. Known cast defect attributed by counterfactual re-execution only.",
+        note=DIFF_NOTE, technique="differential execution over an exhaustive operator/type matrix"),
+    "C03": dict(level="exploration", ref="DESIGN.md section 4 C03",
+        text="Runtime contract on every Cast.il_exec (fill bit) plus differential execution of all 8x8(+bool) type pairs in nine conversion contexts incl. generated sub-routine argument/return; all 256 values for 8-bit sources.",
+        note=DIFF_NOTE, technique="runtime contract on Cast.il_exec + differential execution of a conversion matrix"),
     "C04": dict(
-        level="exploration", ref="DESIGN.md section 4, C04",
+        level="exploration", ref="DESIGN.md section 4 C04",
         text="Runtime contracts on the real c11_cast/promoted_type evaluated over the whole finite domain (thorough: all 4096x4096 "
              "ordered (signedness,width) pairs, exhaustive; quick: the 24 producible types squared + 20000 random pairs). The same "
              "contracts stay attached in every other check's workload. Exhaustive enumeration of a finite domain is the strongest "
              "thing runtime observation can give here.",
         note="Trusted: the 8-line independent statement of C11 6.3.1.8 with rank = width in verif/contracts.py.",
         technique="runtime contracts on the real functions, exhaustive input enumeration"),
+    "C05": dict(level="exploration", ref="DESIGN.md section 4 C05",
+        text="Generated statement trees (all 11 assignment operators x 32/64-bit targets, loops with every trip count 0..8, nested/data-dependent loops, if/else chains, register/local/memory interleavings) "
+             "executed against C; the evaluator reports arms and trip counts actually covered.",
+        note=DIFF_NOTE, technique="differential execution with arm / trip-count coverage monitor"),
+    "C06": dict(level="exploration", ref="DESIGN.md section 4 C06",
+        text="Placements of postfix ++/--, calls (also value-unused) and statement-expressions in every position class, executed against C; def-use monitor on hybrid temporaries; once-only monitor through a generated callee that increments a by-reference register.",
+        note=DIFF_NOTE, technique="differential execution + def-use and once-only monitors in the IL interpreter"),
+    "C08": dict(level="exploration", ref="DESIGN.md section 4 C08",
+        text="Bundled and randomly generated sub-routines registered through Compiler.add_sub_routine, 1..4 calls per expression, calls as arguments, fresh vs aged compiler (temporary numbering 0/1/7/40); callee bodies of the same compiler instance inlined in the caller's namespace and executed against the C call; the caller's live local is compared.",
+        note=DIFF_NOTE, technique="differential execution with by-name inlining of the compiled callee bodies"),
+    "C09": dict(level="exploration", ref="DESIGN.md section 4 C09",
+        text="Literal spellings around 2^7..2^64 x suffixes, folded unary/binary/comparison operators, constant ?:, sizeof: the compiler's folded output executed against gcc's evaluation of the same text; must-reject monitor for inexact/zero division; dead-operand monitor (well-formedness + ownership of outputs).",
+        note=DIFF_NOTE, technique="differential execution (compile-time folded vs gcc), must-raise monitor, offline output checkers"),
+    "C10": dict(level="translation_validation", ref="DESIGN.md section 4 C10, appendix B",
+        text="Per-output validation: every emitted text (corpus, sub-routine definitions, generated programs) is parsed back and every node of the effect - all arms, loop bodies, inlined callees - is typed with the rules of rz_il_validate. Decides the property for each produced output completely (all paths), for the outputs the workload produces.",
+        note="Trusted: this framework's mirror of RzIL typing (DESIGN appendix B); operand widths from the documented register classes.",
+        technique="offline sort checker over recorded compiler outputs"),
+    "C11": dict(level="translation_validation", ref="DESIGN.md section 4 C11",
+        text="Per-output validation in both layouts: structural checker (declaration-with-initialiser or final return, declared once and before use, literals fit 64 bit), clang -fsyntax-only on every body against a stub plugin header, and the companion record rules (needs_hi/needs_pkt, getter names unique).",
+        note="Trusted: the stub plugin header in verif/outcheck.py (types of the IL/plugin macros).",
+        technique="offline C well-formedness checker + clang -fsyntax-only on recorded outputs"),
+    "C12": dict(level="translation_validation", ref="DESIGN.md section 4 C12",
+        text="Per-output validation: ownership counter over every emitted text (one un-DUPed use per pure variable, exactly one use per effect variable, at most one per borrowed parameter, nothing unused).",
+        note="Trusted: every syntactic occurrence in a later initialiser is a use (the IL tree is built eagerly).",
+        technique="offline linear-use counter over recorded compiler outputs"),
+    "C16": dict(level="exploration", ref="DESIGN.md section 4 C16",
+        text="Same behaviour compiled by two pristine compilers (both CodeFormat values): acceptance and attributes equal, both texts pass the output checkers, resolved effect terms structurally identical, IL evaluator reaches identical final states.",
+        note="Trusted: IL evaluator for the semantic backstop; structural identity is checked on the resolved terms modulo DUP.",
+        technique="two-configuration differential (structural identity + execution)"),
+    "C17": dict(level="exploration", ref="DESIGN.md section 4 C17, appendix D",
+        text="Grammar tree vs an independent precedence-climbing parser on all 324 ordered operator pairs, unary/cast/postfix matrices, token-class probes, random nesting <= 6 and corpus texts; determinism across fresh processes with different PYTHONHASHSEED, fresh/reused parser objects and parse order.",
+        note="Trusted: verif/cparse.py as statement of C's expression/statement structure and of the documented operand token patterns.",
+        technique="reference-parser comparison + cross-process determinism monitor"),
 }
 
 NOT_YET = {}
